@@ -219,8 +219,8 @@ pub fn defs() -> Vec<CheckDef> {
     vec![CheckDef {
         id: "C16",
         level: "exploration",
-        runs_quick: 150_000,
-        runs_thorough: 8_000_000,
+        runs_quick: 250_000,
+        runs_thorough: 5_000_000,
         block: 256,
         gen: gen_c16,
         exec,
